@@ -652,6 +652,16 @@ fn generate_function(
 
         Ok(fs)
     } else {
+        // A function that is declared but never defined has nothing to emit
+        if context
+            .module
+            .function_registry
+            .get_function_implementation(id)
+            .is_none()
+        {
+            return Ok(Vec::new());
+        }
+
         let def = generate_function_inner(id, only_declare, context)?;
         Ok(Vec::from([def]))
     }
